@@ -3,11 +3,25 @@ module verif/harness
 go 1.26.0
 
 require (
+	github.com/anishathalye/porcupine v1.3.0
 	github.com/go-git/go-billy/v6 v6.0.0-alpha.2
 	github.com/go-git/go-git/v6 v6.0.0
+	golang.org/x/sync v0.22.0
 	pgregory.net/rapid v1.3.0
 )
 
-require github.com/go-git/gcfg/v2 v2.0.2 // indirect
+require (
+	github.com/ProtonMail/go-crypto v1.4.1 // indirect
+	github.com/cloudflare/circl v1.6.3 // indirect
+	github.com/emirpasic/gods v1.18.1 // indirect
+	github.com/go-git/gcfg/v2 v2.0.2 // indirect
+	github.com/kevinburke/ssh_config v1.6.0 // indirect
+	github.com/klauspost/cpuid/v2 v2.3.0 // indirect
+	github.com/pjbgf/sha1cd v0.6.0 // indirect
+	github.com/sergi/go-diff v1.4.0 // indirect
+	golang.org/x/crypto v0.55.0 // indirect
+	golang.org/x/net v0.58.0 // indirect
+	golang.org/x/sys v0.47.0 // indirect
+)
 
 replace github.com/go-git/go-git/v6 => /repo
